@@ -419,7 +419,7 @@ type c21H struct {
 	armed  *c21Arm
 	// DB applied index of the serving node when each backup was requested (ground truth read at quiescence)
 	appliedAt map[int]uint64
-	limit  int64 // relative cut position once decided (-1 = undecided)
+	limit     int64 // relative cut position once decided (-1 = undecided)
 }
 
 func (h *c21H) installTap() {
